@@ -395,6 +395,20 @@ ROUND5_ADDENDA = {
 }
 for _id, _txt in ROUND5_ADDENDA.items():
     CHECKS[_id]["rule"] += ". Fifth round: " + _txt
+ROUND6_ADDENDA = {
+    "C01": "rows have a history (an UPDATE / DELETE may carry the last written after image of its table as before image; a third of the TIMESTAMP values are the second of their event); "
+           "statement texts may end in white space; a later file may announce checksum algorithm 255",
+    "C04": "fault 'the caller's deadline passes inside the At-th handler call, which then accepts'",
+    "C05": "stop cause 'the handler panics and the caller recovers'; the gated handler stays blocked 30 / 150 / 400 ms after a cancellation",
+    "C07": "start positions with an empty file name; an attempt whose handler panics (the next request carries the position that attempt started from or a resume point)",
+    "C08": "mode in which handler and harness keep only the value byte slices, let go of the transaction and run the garbage collector after every delivery; rows with a history as in C01",
+    "C14": "two documents of more than 2^24 bytes (a 17 MiB string among other members)",
+    "C16": "end-to-end part: a later file may announce checksum algorithm 255",
+    "C17": "injections also with an empty start file name; thorough tier: one scenario with 10.5 s of silence in front of an empty packet",
+    "C18": "the zero-value (nil map) empty set against the allocated empty set: Equal, Contains, String, AddGTID",
+}
+for _id, _txt in ROUND6_ADDENDA.items():
+    CHECKS[_id]["rule"] += ". Sixth round: " + _txt
 for _id, _c in CHECKS.items():
     if _c.get("fuzz") and _id not in ("C14", "C17"):
         _c["rule"] += ". Thorough tier: the generated part is additionally driven by go's native coverage-guided fuzzer (rapid.MakeFuzz), 45 s on all cores"
